@@ -214,7 +214,7 @@ def sweep(ctx, mod, max_mutants_per_function: int = 40):
         "functions_mutated": [f.qual for f in funcs],
         "mutants": len(mres), "killed": len(killed), "undecided_exit2": len(undec), "survived": len(surv),
         "killed_by_rule": _count([x for r in killed for x in r[2]]),
-        "survivors": [r[0] for r in surv][:60],
+        "survivors": [r[0] for r in surv][:400],
         "undecided": [f"{r[0]} :: {r[2]}" for r in undec][:20],
         "rewrites": len(rres), "rewrites_silent": len(rres) - len(alarms),
         "rewrite_alarms": [f"{r[0]} :: {r[1]} {r[2]}" for r in alarms][:40],
